@@ -38,18 +38,25 @@ const (
 )
 
 // JSON quote of string value - '"' + JSON escape + '"'.
-func modJSONQuote(ctx *Ctx, buf *any, val any, _ []any) error {
+func modJSONQuote(ctx *Ctx, buf *any, val any, args []any) error {
+	// Get count of quote iterations (cases: qq=, qqq=, ...).
+	itr := printIterations(args)
+
 	var b []byte
-	if cb, ok := val.(*bytebuf.Chain); !ok || cb != &ctx.bufMO {
-		ctx.bufMO.Reset()
+	for c := 0; c < itr; c++ {
+		if cb, ok := val.(*bytebuf.Chain); !ok || cb != &ctx.bufMO {
+			ctx.bufMO.Reset()
+		}
+		b = nil
+		if err := modJSONEscape(ctx, buf, val, nil); err == nil {
+			b = ctx.BufAcc.StakeOut().
+				WriteByte(jqQd).
+				Write(ctx.bufMO.Bytes()).
+				WriteByte(jqQd).StakedBytes()
+		}
+		ctx.BufModOut(buf, b)
+		val = *buf
 	}
-	if err := modJSONEscape(ctx, buf, val, nil); err == nil {
-		b = ctx.BufAcc.StakeOut().
-			WriteByte(jqQd).
-			Write(ctx.bufMO.Bytes()).
-			WriteByte(jqQd).StakedBytes()
-	}
-	ctx.BufModOut(buf, b)
 
 	return nil
 }
